@@ -36,6 +36,28 @@ SCRIPT = '''printf '%%s\\n' "ID=%s" "A1=$1" "A2=$2" "A3=$3" "PWD=$(pwd -P)" > "$
 '''
 
 
+PYSCRIPT = """#!%s
+import os, sys
+with open(sys.argv[3], 'w') as f:
+    f.write('ID=%s\\nA1=%%s\\nA2=%%s\\nA3=%%s\\nPWD=%%s\\n' %% (sys.argv[1], sys.argv[2], sys.argv[3], os.path.realpath(os.getcwd())))
+"""
+
+
+def make_script(ident, rnd):
+    """A rule may name its own interpreter in a #! line (then redo runs that instead of `sh -e`); arguments and working directory
+    are the same either way."""
+    k = rnd.random()
+    if k < 0.55:
+        return SCRIPT % ident
+    if k < 0.7:
+        return '#!/bin/sh\n' + SCRIPT % ident
+    if k < 0.8:
+        return '#!/bin/sh -eu\n' + SCRIPT % ident
+    if k < 0.9:
+        return '#!/usr/bin/env sh\n' + SCRIPT % ident
+    return PYSCRIPT % (rnd.choice(['/usr/bin/python3', '/usr/bin/env python3', '/usr/bin/python3 -E']), ident)
+
+
 def spellings(top, reldir, name, rnd):
     rel = posixpath.join(reldir, name)
     sp = [('top', rel), ('top', './' + rel), ('top', posixpath.join(top, rel))]
@@ -72,7 +94,7 @@ def cmd_case(item):
         for i in placed:
             path = inside[i][0]
             ids[path] = 'cand%d' % i
-            common.write_file(path, SCRIPT % ids[path])
+            common.write_file(path, make_script(ids[path], rnd))
         sp = spellings(top, reldir, name, rnd)
         cwd_rel, spelled = sp[spell_idx % len(sp)]
         cwd = top if cwd_rel == 'top' else os.path.join(top, cwd_rel)
@@ -124,7 +146,7 @@ def cmd_case(item):
                 j = rnd.randrange(0, cur)
                 path = inside[j][0]
                 ids[path] = 'cand%d' % j
-                common.write_file(path, SCRIPT % ids[path])
+                common.write_file(path, make_script(ids[path], rnd))
                 check_round('after-adding-higher-priority')
             elif mutate == 'remove-chosen' and cur is not None and len([c for c in inside if os.path.exists(c[0])]) >= 2:
                 os.unlink(inside[cur][0])
